@@ -46,12 +46,12 @@ type Thread struct {
 	signaled  bool
 	condPhase int // 0 = not in wait, 1 = unlocked+waiting for signal, 2 = reacquiring
 	// channel rendez-vous: result delivered by the partner
-	wake    *Wake
-	parked  *ParkInfo
-	name    string
-	retval  Value
-	startFn Value
-	vc      []int
+	wake      *Wake
+	parked    *ParkInfo
+	name      string
+	retval    Value
+	startFn   Value
+	vc        []int
 	startArgs []Value
 }
 
@@ -72,51 +72,51 @@ type ChanCase struct {
 }
 
 type SchedEvent struct {
-	Thread int    `json:"thread"`
-	Op     string `json:"op"`
-	Pos    string `json:"pos"`
-	Preempt bool  `json:"preempt,omitempty"`
+	Thread  int    `json:"thread"`
+	Op      string `json:"op"`
+	Pos     string `json:"pos"`
+	Preempt bool   `json:"preempt,omitempty"`
 }
 
 type State struct {
-	heap    []Value
-	threads []*Thread
-	cur     int
-	pc      *PC
-	known   map[int]bool
-	conc    map[int]uint64
-	budget  int
-	steps   int
+	heap          []Value
+	threads       []*Thread
+	cur           int
+	pc            *PC
+	known         map[int]bool
+	conc          map[int]uint64
+	budget        int
+	steps         int
 	boundLabel    string // vrt.Bounded region: label of the termination obligation
 	boundDeadline int    // value of steps at which it is violated
-	tags    []string
-	covers  []string
-	trace   []SchedEvent
-	names   map[string]int
-	globals map[*ssa.Global]int
-	vars    []*Term // symbolic inputs created on this path (in order)
-	notes   []string
-	violatedHere bool
-	witness map[string]uint64
-	shared  map[int]bool
-	syncVC  map[string][]int
-	shadow  map[int]*raceInfo
-	libArr  map[int]bool
+	tags          []string
+	covers        []string
+	trace         []SchedEvent
+	names         map[string]int
+	globals       map[*ssa.Global]int
+	vars          []*Term // symbolic inputs created on this path (in order)
+	notes         []string
+	violatedHere  bool
+	witness       map[string]uint64
+	shared        map[int]bool
+	syncVC        map[string][]int
+	shadow        map[int]*raceInfo
+	libArr        map[int]bool
 }
 
 func (st *State) clone() *State {
 	ns := &State{
-		heap:   append([]Value(nil), st.heap...),
-		cur:    st.cur,
-		pc:     st.pc,
-		budget: st.budget,
-		steps:  st.steps,
+		heap:       append([]Value(nil), st.heap...),
+		cur:        st.cur,
+		pc:         st.pc,
+		budget:     st.budget,
+		steps:      st.steps,
 		boundLabel: st.boundLabel, boundDeadline: st.boundDeadline,
-		tags:   append([]string(nil), st.tags...),
-		covers: append([]string(nil), st.covers...),
-		trace:  append([]SchedEvent(nil), st.trace...),
-		vars:   append([]*Term(nil), st.vars...),
-		notes:  append([]string(nil), st.notes...),
+		tags:    append([]string(nil), st.tags...),
+		covers:  append([]string(nil), st.covers...),
+		trace:   append([]SchedEvent(nil), st.trace...),
+		vars:    append([]*Term(nil), st.vars...),
+		notes:   append([]string(nil), st.notes...),
 		witness: st.witness,
 	}
 	if len(st.syncVC) > 0 {
